@@ -100,6 +100,7 @@ class World:
       {"k": "tok", "parent": idx | -1 | -2, "signer": "o" | "f"}       created after token idx / a genesis hash
       {"k": "rand", "prev": <32 bytes>, "signer": "o" | "f"}           back-pointer to nothing
       {"k": "tamper", "base": idx, "how": <TAMPERS>, "arg": int}       altered copy of token idx
+      {"k": "twin", "of": idx}                                         the double pointer of token idx signed once more
     """
 
     def __init__(self, case: dict) -> None:
@@ -145,6 +146,14 @@ class World:
                     tok = Token(genesis[p] if p < 0 else self.hash[p], content=content, private_key=key)
                 self.valid.append(spec["signer"] == "o")
                 self.parent.append(None if p == FOREIGN_GENESIS else p)
+            elif k == "twin":
+                # the owner signs the double pointer of an earlier token of its own once more: the same token again
+                # where signatures are deterministic, a second, equally valid token where they are randomised (ECDSA)
+                base = spec["of"]
+                content = self.content[base]
+                tok = Token(self.raw[base][0], content=content, private_key=owner)
+                self.valid.append(self.valid[base])
+                self.parent.append(self.parent[base])
             elif k == "rand":
                 key = owner if spec["signer"] == "o" else foreign
                 tok = Token(bytes(spec["prev"]), content=content, private_key=key)
@@ -287,6 +296,8 @@ def _kind(world: World, i: int) -> str:
     spec = world.specs[i]
     if spec["k"] == "tamper":
         return "forged"
+    if spec["k"] == "twin":
+        return "dangling"
     if spec["signer"] == "f":
         return "foreign"
     return "dangling"
@@ -599,7 +610,8 @@ def _plan_strategy():
                          st.integers(1, 3), st.lists(pos, min_size=3, max_size=3))
     dup = st.tuples(st.just("dup"), a, st.booleans(), st.booleans(), pos)
     content = st.tuples(st.just("content"), a, st.sampled_from([1, 2, 3, 5]), st.booleans(), pos)
-    return st.lists(st.one_of(forge, foreign, dangling, dup, content, content), min_size=1, max_size=6)
+    twin = st.tuples(st.just("twin"), a, st.booleans(), pos, pos)
+    return st.lists(st.one_of(forge, foreign, dangling, dup, content, content, twin), min_size=1, max_size=6)
 
 
 def expand(parents: list[int], order: list[int], plan: list, rot: int = 0) -> tuple[list, list]:
@@ -639,6 +651,14 @@ def expand(parents: list[int], order: list[int], plan: list, rot: int = 0) -> tu
             for k in range(1, length):
                 tokens.append({"k": "tok", "parent": len(tokens) - 1, "signer": "o"})
                 extra.append((ps[k], [len(tokens) - 1, 0]))
+        elif kind == "twin":
+            _, a, child, p1, p2 = item
+            if n:
+                tokens.append({"k": "twin", "of": a % n})
+                extra.append((p1, [len(tokens) - 1, 0]))
+                if child:
+                    tokens.append({"k": "tok", "parent": len(tokens) - 1, "signer": "o"})
+                    extra.append((p2, [len(tokens) - 1, 0]))
         elif kind == "dup":
             _, a, anywhere, same, p = item
             extra.append((p, [a % (len(tokens) if anywhere else max(n, 1)), 4 if same else 0]))
@@ -675,6 +695,8 @@ def _gc(case: dict) -> dict:
         spec = case["tokens"][i]
         if spec["k"] == "tok" and spec["parent"] >= 0:
             stack.append(spec["parent"])
+        if spec["k"] == "twin":
+            stack.append(spec["of"])
         if spec["k"] == "tamper":
             stack.append(spec["base"])
             if spec["how"] in ("regraft", "sig_swap"):
@@ -688,6 +710,8 @@ def _gc(case: dict) -> dict:
             spec["parent"] = ren[spec["parent"]]
         if spec["k"] == "tamper":
             spec["base"] = ren[spec["base"]]
+        if spec["k"] == "twin":
+            spec["of"] = ren[spec["of"]]
         tokens.append(spec)
     out = dict(case, tokens=tokens, events=[[ren[i], m] for i, m in case["events"]])
     if case.get("tail"):
